@@ -6,27 +6,41 @@ PROP = "C12"
 DRIVER = "c12"
 MODEL = "C12"
 MODEL_QUALID = "Model.Hedge.run_script"
-FORMAT = ("script [max; mode; ncalls; nd; d_1..d_nd; (op a b)*] mode mod 4: 0=Fixed(d_1 ms) 1=Immediate 2=Dynamic(attempt k -> d_k ms, 0 beyond nd); "
-          "mode/4 = 1: gated readiness (clones of the inner service are not ready until the script's Ready op; the instance used by the primary is ready); "
+FORMAT = ("script [max; mode; ncalls; nd; d_1..d_nd; (op a b)*] mode mod 4: 0=Fixed(d_1) 1=Immediate 2=Dynamic(attempt k -> d_k, 0 beyond nd); "
+          "(mode/4) mod 2 = 1: gated readiness (attempt clones of the inner service are not ready until the script's Ready op; the instance used by the primary is ready); "
+          "(mode/8) mod 4: 0 = each call on its own Hedge value, 1 = all calls through one Hedge value, 2 = call i through a clone of the value used by call i-1, "
+          "3 = even calls through one value, odd calls through a fresh clone of it; (mode/32) mod 2 = 1: the d_k are microseconds, else milliseconds; d_k >= 10^18 = Duration::MAX; "
           "op 1=Poll i 2=Drop i 3=Advance a(ms) 4=Complete a b (a=16*i+n: the n-th inner call made for call i; b: 0 ok,1 err,2 panic; the value carried is a) "
-          "5=Ready a (a=16*i+k: the clone of hedge attempt k of call i becomes ready). "
-          "Call i uses request value i on its own hedge service over the shared inner service. "
+          "5=Ready a (a=16*i+k: the clone of hedge attempt k of call i becomes ready) 6=ReadyErr a (a=16*i+k: poll_ready of that clone returns Err(64+a) from now on: "
+          "the attempt fails without an inner call) 7=SyncPanic a (a=16*i+n: that inner call panics, synchronously inside inner.call() if it has not been made yet). "
+          "Call i uses request value i. "
           "trace: per event [r; v; ns; nl; wake mask; in-flight; now_ms] with r: -1 no poll, 0 pending, 1 Ok(v), 2 Err(Inner v), "
           "3 Err(AllAttemptsFailed v), 5 panicked, 9 nothing to poll; ns = sum_i (inner calls started for call i in this event)*32^i; "
           "nl = sum_i (hedge attempt tasks of call i that ran for the first time, i.e. asked their clone for readiness, in this event)*32^i")
 RULE = ("timeline scripts built from a vector of per-attempt completion instants (before / at / after the ideal start of each later attempt, "
-        "never) and outcomes (ok, err, panic) with prompt, lazy or sparse polling and occasional cancellation, max 1..5, fixed / zero / immediate / "
-        "per-attempt delays incl. zeros; back-pressured clones (gated readiness: ready before launch, at launch, later, after the primary's success, never; out of order); "
-        "random event soups over 1-3 concurrent calls; exhaustive short scripts over a small alphabet (thorough); "
+        "never) and outcomes (ok, err, panic in the inner future, panic inside inner.call()) with prompt, lazy or sparse polling and occasional cancellation, max 1..16, fixed / zero / immediate / "
+        "per-attempt delays incl. zeros, sub-millisecond and fractional-millisecond delays (microsecond unit), 30-100 s delays and Duration::MAX (fixed and per-attempt); "
+        "back-pressured clones (gated readiness: ready before launch, at launch, later, after the primary's success, never; out of order); "
+        "clones whose poll_ready fails (before launch, while the attempt waits, after its call; gated or not); "
+        "1-4 concurrent calls on separate Hedge values, through one value, through a chain of clones; "
+        "random event soups; exhaustive short scripts over a small alphabet (thorough); "
         "non-trivial = at least one hedge attempt was started or the call resolved with AllAttemptsFailed")
 TRUSTED = ["tokio mpsc (FIFO, receiver woken by every send and by the last sender going away), tokio::spawn (tasks run in spawn order when the harness yields), "
-           "time::sleep (ready iff now >= deadline at whole ms; a zero sleep is ready at its first poll) and the biased select! are modelled, tied to the libraries only by this correspondence run",
+           "time::sleep (millisecond resolution, rounding up: ready iff now >= deadline rounded up to a whole ms; a zero sleep is ready at its first poll; Duration::MAX never elapses) "
+           "and the biased select! are modelled, tied to the libraries only by this correspondence run",
            "poll atomicity: the call future's state is touched only inside one poll; attempt tasks touch only the channel"]
-ASSUMPTIONS = ["whole-millisecond instants", "single-threaded deterministic executor: spawned attempt tasks run, in spawn order, right after the event that spawned or unblocked them",
-               "poll_ready of a clone never fails: it is Ready(Ok) at once, or Pending until the script's Ready op (gated runs)",
-               "at most one hedged call per request value, so that the n-th inner call of call i is the n-th inner call with request i"]
+ASSUMPTIONS = ["whole-millisecond instants (the clock moves in 1 ms steps); delays may be any number of microseconds",
+               "single-threaded deterministic executor: spawned attempt tasks run, in spawn order, right after the event that spawned or unblocked them",
+               "poll_ready of an attempt clone is Ready(Ok) at once, Pending until the script's Ready op (gated runs), or Ready(Err) once the script's ReadyErr op has been seen; "
+               "the instance the caller drove to readiness (used by the primary) never fails",
+               "at most one hedged call per request value, so that the n-th inner call of call i is the n-th inner call with request i",
+               "max_hedged_attempts <= 16 (mpsc::channel(max) panics above usize::MAX >> 3; not driven)"]
+# scripts on which the REAL code violates the property (kept out of the pass/fail decision by the coordinator)
+KNOWN_DEFECT = []
 
 EVW = 7
+DMAX = 10 ** 18
+INF = 10 ** 30
 
 
 def mk(mx, mode, ncalls, ds, evs):
@@ -39,10 +53,10 @@ def mk(mx, mode, ncalls, ds, evs):
 def header(s):
     g = lambda i: s[i] if i < len(s) else 0
     mx = max(1, min(16, max(0, g(0))))
-    mode = min(7, max(0, g(1)))     # mode % 4: delay kind, mode // 4: gated readiness
+    mode = min(63, max(0, g(1)))    # mode % 4: delay kind, (mode // 4) % 2: gated, (mode // 8) % 4: sharing, (mode // 32) % 2: microseconds
     ncalls = min(4, max(0, g(2)))
     nd = min(16, max(0, g(3)))
-    ds = [min(100000, max(0, g(4 + j))) for j in range(nd)]
+    ds = [min(DMAX, max(0, g(4 + j))) for j in range(nd)]
     body = s[4 + nd:]
     evs = [tuple(body[i:i + 3]) for i in range(0, len(body) - len(body) % 3, 3)]
     keep = []
@@ -52,20 +66,37 @@ def header(s):
                 keep.append((op, a, b))
         elif op == 3:
             keep.append((op, min(100000, max(0, a)), b))
-        elif op in (4, 5):
+        elif op in (4, 5, 6, 7):
             if a >= 0 and a // 16 < ncalls:
                 keep.append((op, a, b))
     return mx, mode, ncalls, ds, keep
 
 
-def delay_of(mode, ds, k):
-    """configured delay before attempt k (k >= 1)"""
-    mode = mode % 4
-    if mode == 1:
+def micros(mode):
+    return (mode // 32) % 2 == 1
+
+
+def raw_delay(mode, ds, k):
+    kind = mode % 4
+    if kind == 1:
         return 0
-    if mode == 2:
+    if kind == 2:
         return ds[k - 1] if 1 <= k <= len(ds) else 0
     return ds[0] if ds else 0
+
+
+def delay_us(mode, ds, k):
+    """configured delay before attempt k (k >= 1) in microseconds; INF for Duration::MAX"""
+    d = raw_delay(mode, ds, k)
+    if d >= DMAX:
+        return INF
+    return d if micros(mode) else 1000 * d
+
+
+def delay_of(mode, ds, k):
+    """the same in whole milliseconds, rounded up (what a millisecond timer does); used by the generators only"""
+    d = delay_us(mode, ds, k)
+    return d if d == INF else (d + 999) // 1000
 
 
 def gated(mode):
@@ -73,10 +104,10 @@ def gated(mode):
 
 
 def latency_mode(mode, ds):
-    mode = mode % 4
-    if mode == 1:
+    kind = mode % 4
+    if kind == 1:
         return False
-    if mode == 2:
+    if kind == 2:
         return True
     return (ds[0] if ds else 0) > 0
 
@@ -89,10 +120,29 @@ def decode(s, t):
 
 
 # ---------------------------------------------------------------------------
-# independent monitor: restates the clauses of C12 over the implementation's trace.
+# independent monitor: restates the clauses of C12 over the implementation's trace, and nothing else.
 # Vocabulary: attempt task k of a call is *launched* when it runs for the first time (the
 # primary: its inner call; a hedge: its clone is asked for readiness) and *started* when its
-# inner call is made (at launch if its clone is ready, else when the script readies the clone).
+# inner call is made (at launch if its clone is ready, else when the script readies the clone);
+# it has *failed* when its inner call's error was delivered, when its task panicked, or when its
+# clone's poll_ready failed (then it never makes an inner call).
+# What the property leaves open is NOT checked here (it stays pinned by the comparison with the
+# model's trace): which attempt's error AllAttemptsFailed carries; whether losing attempts are
+# cancelled or run on once the call has resolved or was dropped; that a call whose attempts have
+# all failed does report so; how soon after its delay a hedge is launched; whether a hedge is
+# launched in the very poll that finds the primary's success; wake-ups that deliver no success;
+# Err(Inner) versus AllAttemptsFailed (both count as the call giving up).
+# Two layers. (1) monitor_bounds needs no bookkeeping: the number of inner calls, and a lower bound
+# on the instant of the n-th one. (2) monitor_call follows the attempts through the trace; to know
+# which attempt made which inner call it relies on the event discipline of the code as written (the
+# primary is started by the first poll, hedges are launched by polls, a launched hedge whose clone is
+# ready makes its call at once, a waiting one when its clone is readied). A trace that does not keep
+# this discipline is not a violation of C12: the second layer then stops following that call
+# (Unfollowable) and the difference is left to the comparison with the model.
+class Unfollowable(Exception):
+    pass
+
+
 def monitor(s, t):
     d = decode(s, t)
     if d is None:
@@ -100,9 +150,40 @@ def monitor(s, t):
     mx, mode, ncalls, ds, evt = d
     lat = latency_mode(mode, ds) and mx > 1
     for i in range(ncalls):
-        m = monitor_call(i, mx, mode, ds, lat, evt)
+        m = monitor_bounds(i, mx, mode, ds, lat, evt)
+        if not m:
+            try:
+                m = monitor_call(i, mx, mode, ds, lat, evt)
+            except Unfollowable:
+                m = None
         if m:
             return "call %d: %s" % (i, m)
+    return None
+
+
+def monitor_bounds(i, mx, mode, ds, lat, evt):
+    """clause 1 for the whole life of the request (also after the call resolved or was dropped), and the
+    part of clause 2 that holds whatever 'started' means under back-pressure: attempt k is not started
+    before (creation of the call) + delay(1) + ... + delay(k), so neither is the k-th inner call in time order"""
+    total = 0
+    t_create = None
+    due = 0              # microseconds after creation before which inner call number `total` must not happen
+    for (e, o) in evt:
+        op, a, b = e
+        now = o[6]
+        if t_create is None and op in (1, 2) and a == i:
+            t_create = now
+        for _ in range((o[2] >> (5 * i)) & 31):
+            if total >= mx:
+                return "%d inner calls started by %d ms, max_hedged_attempts = %d" % (total + 1, now, mx)
+            if t_create is None:
+                return "inner call at %d ms for a call that was never made" % now
+            if lat and 1000 * (now - t_create) < due:
+                return ("inner call %d at %d ms, less than the first %d configured delays (%s us) after the call was made (%d ms)"
+                        % (total, now, total, due, t_create))
+            total += 1
+            if lat and total < mx:
+                due = min(INF, due + delay_us(mode, ds, total))
     return None
 
 
@@ -111,13 +192,14 @@ def monitor_call(i, mx, mode, ds, lat, evt):
     calls = []           # (task, instant) of the n-th inner call of this hedged call
     waiting = []         # launched hedge tasks whose clone is not ready yet
     ready = set()        # hedge clones the script has made ready
+    failing = set()      # hedge clones whose poll_ready fails
     outcome = {}         # inner call n -> (b, event index of the Complete)
-    delivered = []       # (event index, task, n, b) in queue order, while the call future is alive
+    delivered = []       # (event index, task, inner call n or None, b) in queue order, while the call future is alive
     alive = True         # future neither resolved nor dropped
     first_poll = None
     taken = 0            # number of delivered results the future has already looked at
-    panics = False
     is_gated = gated(mode)
+    dus = lambda k: delay_us(mode, ds, k)
 
     def is_ready(k):
         return k == 0 or (not is_gated) or k in ready
@@ -125,12 +207,8 @@ def monitor_call(i, mx, mode, ds, lat, evt):
     def start_call(idx, k, now):
         n = len(calls)
         calls.append((k, now))
-        if alive and n in outcome and outcome[n][0] != 2:
+        if n in outcome and outcome[n][0] != 2:
             delivered.append((idx, k, n, outcome[n][0]))
-
-    def due():
-        """instant at which the next hedge is due (latency mode, a further hedge possible)"""
-        return launch[-1] + delay_of(mode, ds, len(launch))
 
     for idx, (e, o) in enumerate(evt):
         op, a, b = e
@@ -138,13 +216,15 @@ def monitor_call(i, mx, mode, ds, lat, evt):
         n_new = (ns >> (5 * i)) & 31
         l_new = (nl >> (5 * i)) & 31
         woke = (mask >> i) & 1
-        if op == 4 and a // 16 == i:
+        if not alive:
+            break        # nothing else is promised about a call that has resolved or was dropped
+        if op in (4, 7) and a // 16 == i:
             n = a % 16
+            if op == 7:
+                b = 2
             if n not in outcome:
                 outcome[n] = (b if b in (0, 1) else 2, idx)
-                if outcome[n][0] == 2:
-                    panics = True
-                if n < len(calls) and alive and outcome[n][0] != 2:
+                if n < len(calls) and outcome[n][0] != 2:
                     delivered.append((idx, calls[n][0], n, outcome[n][0]))
         if op == 5 and a // 16 == i:
             k = a % 16
@@ -153,16 +233,23 @@ def monitor_call(i, mx, mode, ds, lat, evt):
             if is_gated and fresh and k in waiting:
                 waiting.remove(k)
                 if n_new != 1:
-                    return "clone of attempt %d became ready at %d ms but %d inner calls were made" % (k, now, n_new)
+                    raise Unfollowable("clone of attempt %d became ready at %d ms but %d inner calls were made" % (k, now, n_new))
                 start_call(idx, k, now)
                 n_new = 0
+        if op == 6 and a // 16 == i:
+            k = a % 16
+            if k not in failing:
+                failing.add(k)
+                if k in waiting:
+                    waiting.remove(k)
+                    delivered.append((idx, k, None, 1))
+        if op == 2 and a == i:
+            # cancellation
+            alive = False
+            continue
         if (n_new or l_new) and not (op == 1 and a == i):
-            return "inner call started / hedge launched outside a poll of the hedged call and without a Ready (event %d)" % idx
+            raise Unfollowable("inner call started / hedge launched outside a poll of the hedged call and without a Ready (event %d)" % idx)
         if op == 1 and a == i:
-            if not alive:
-                if r != 9:
-                    return "poll of a finished call returned %d" % r
-                continue
             if first_poll is None:
                 first_poll = now
             # --- what was queued when this poll began
@@ -177,54 +264,45 @@ def monitor_call(i, mx, mode, ds, lat, evt):
                             % (nwin, now, r, v, " while hedge task(s) %s wait for readiness" % waiting if waiting else ""))
             elif r == 1:
                 return "resolved Ok(%d) at %d ms without a queued success" % (v, now)
-            if r == 2:
-                return "Err(Inner) is never produced by the hedge"
-            # clause 4: AllAttemptsFailed only if every attempt was started and has failed
-            errs_all = [(j, k, n) for (j, k, n, bb) in delivered if bb == 1]
-            if r == 3:
-                if len(launch) != mx or len(calls) != mx:
-                    return "AllAttemptsFailed at %d ms with %d of %d attempts launched, %d started" % (now, len(launch), mx, len(calls))
-                # an attempt has failed when its error was delivered, or when its task panicked
-                failed = set(n for (_, _, n) in errs_all) | set(n for n in outcome if outcome[n][0] == 2 and n < len(calls))
-                if sorted(failed) != list(range(mx)):
-                    return ("AllAttemptsFailed at %d ms but only inner calls %s have failed"
-                            % (now, sorted(failed)))
-                if lat and len(errs_all) != mx:
-                    return "latency mode: AllAttemptsFailed with %d delivered errors" % len(errs_all)
-                if lat or mx == 1:
-                    if v != 16 * i:
-                        return "AllAttemptsFailed carries %d, not the primary's error %d" % (v, 16 * i)
-                else:
-                    # parallel mode keeps the first error received (reported: the documentation says the primary's)
-                    if v != 16 * i + errs_all[0][2]:
-                        return "AllAttemptsFailed carries %d, not the first received error" % v
-            if r == 5 and not panics:
-                return "the call future panicked without a scripted inner panic"
-            # a pending poll must not be sitting on a decided call (no result is lost)
-            if r == 0:
-                if len(errs_all) >= mx:
-                    return "all %d attempts have failed and were delivered, yet the poll at %d ms is pending" % (mx, now)
-                if not lat and len(launch) == mx and not waiting and len(calls) == mx and all(n in outcome for n in range(mx)):
-                    return "every attempt has finished, yet the poll at %d ms is pending" % now
+            # clause 4: the call gives up (AllAttemptsFailed; Err(Inner) and a panic of the call future are
+            # no better) only if every attempt was launched, none is still waiting to be started, and each has failed.
+            # C12 quantifies over outcomes ok / error: once an inner panic has been scripted for this call, a panic
+            # of the call future (the inner panic propagating) is not judged.
+            if r == 5 and any(x[0] == 2 for x in outcome.values()):
+                alive = False
+                continue
+            if r in (2, 3, 5):
+                what = {2: "Err(Inner)", 3: "AllAttemptsFailed", 5: "panic of the call future"}[r]
+                if len(launch) != mx:
+                    return "%s at %d ms with %d of %d attempts started" % (what, now, len(launch), mx)
+                if waiting:
+                    return "%s at %d ms while attempt(s) %s have not made their inner call yet" % (what, now, waiting)
+                failed = set(k for (_, k, _, bb) in delivered if bb == 1) | \
+                    set(calls[n][0] for n in outcome if outcome[n][0] == 2 and n < len(calls))
+                if failed != set(range(mx)):
+                    return "%s at %d ms but only attempts %s have failed" % (what, now, sorted(failed))
             taken = len(delivered)
             if r != 0:
                 alive = False
+                continue
             # --- tasks launched by this poll run right after it, in order
             n_launch = l_new + (1 if not launch else 0)
             if not launch and n_new < 1:
-                return "the first poll did not start the primary"
+                raise Unfollowable("the first poll did not start the primary")
             started_here = 0
             for _ in range(n_launch):
                 k = len(launch)
                 launch.append(now)
-                if is_ready(k):
+                if k >= 1 and k in failing:
+                    delivered.append((idx, k, None, 1))
+                elif is_ready(k):
                     start_call(idx, k, now)
                     started_here += 1
                 else:
                     waiting.append(k)
             if started_here != n_new:
-                return ("poll at %d ms launched tasks up to %d; %d of them have a ready clone but %d inner calls were made"
-                        % (now, len(launch) - 1, started_here, n_new))
+                raise Unfollowable("poll at %d ms launched tasks up to %d; %d of them have a ready clone but %d inner calls were made"
+                                   % (now, len(launch) - 1, started_here, n_new))
             # clause 1: bounded
             if len(launch) > mx or len(calls) > mx:
                 return "%d attempts launched, %d inner calls started, max_hedged_attempts = %d" % (len(launch), len(calls), mx)
@@ -233,31 +311,24 @@ def monitor_call(i, mx, mode, ds, lat, evt):
                 return "primary started at %s, first poll at %d" % (calls[0], first_poll)
             if lat:
                 for k in range(1, len(launch)):
-                    if launch[k] < launch[k - 1] + delay_of(mode, ds, k):
-                        return ("attempt %d launched at %d ms, less than %d ms after attempt %d (%d ms)"
-                                % (k, launch[k], delay_of(mode, ds, k), k - 1, launch[k - 1]))
-                if r == 0 and len(launch) < mx and now >= due():
-                    return ("pending poll at %d ms left the elapsed hedge timer (due %d ms) unserved"
-                            % (now, due()))
+                    if 1000 * launch[k] < 1000 * launch[k - 1] + dus(k):
+                        return ("attempt %d launched at %d ms, less than %s us after attempt %d (%d ms)"
+                                % (k, launch[k], dus(k), k - 1, launch[k - 1]))
             else:
                 if len(launch) != mx or any(x != first_poll for x in launch):
                     return "parallel mode: launches %s, expected %d at %d ms" % (launch, mx, first_poll)
-        if op == 2 and a == i:
-            alive = False
         for (k, tm) in calls:
-            if tm < launch[k] or (lat and k >= 1 and tm < launch[k - 1] + delay_of(mode, ds, k)):
+            if tm < launch[k] or (lat and k >= 1 and 1000 * tm < 1000 * launch[k - 1] + dus(k)):
                 return "inner call of attempt %d at %d ms, before its launch / the configured delay" % (k, tm)
-        # wake-up: an unseen queued result must have woken the call future
-        if alive and len(delivered) > taken and not woke:
-            return "result of inner call %d queued at event %d but the call future was not woken" % (delivered[taken][2], idx)
-        # timer: in latency mode the elapsed hedge timer must have woken the future
-        if alive and lat and launch and len(launch) < mx and now >= due() and not woke:
-            return "hedge timer elapsed at %d ms without waking the call future" % due()
-    # clause 1, second half: primary's success queued before the first delay elapsed => one attempt
-    if lat and launch:
-        for (j, k, n, bb) in delivered:
-            if k == 0 and bb == 0 and evt[j][1][6] < launch[0] + delay_of(mode, ds, 1) and (len(launch) != 1 or len(calls) != 1):
-                return "primary succeeded at %d ms, before the first hedge delay, yet %d attempts were launched" % (evt[j][1][6], len(launch))
+        if lat and not is_gated:
+            # without back-pressure, clause 2 read on the inner calls themselves
+            for n in range(1, len(calls)):
+                if 1000 * calls[n][1] < 1000 * calls[n - 1][1] + dus(calls[n][0]):
+                    return ("inner call %d (attempt %d) at %d ms, less than %s us after inner call %d at %d ms"
+                            % (n, calls[n][0], calls[n][1], dus(calls[n][0]), n - 1, calls[n - 1][1]))
+        # "as soon as it is available": an unseen queued success must have woken the call future
+        if any(bb == 0 for (_, _, _, bb) in delivered[taken:]) and not woke:
+            return "a success was queued at event %d but the call future was not woken" % idx
     return None
 
 
@@ -265,7 +336,10 @@ def monitor_call(i, mx, mode, ds, lat, evt):
 def corpus():
     P, D, A, C = (lambda i=0: (1, i, 0)), (lambda i=0: (2, i, 0)), (lambda d: (3, d, 0)), (lambda i, k, b: (4, 16 * i + k, b))
     R = lambda i, k: (5, 16 * i + k, 0)
-    G = 4   # gated readiness
+    E = lambda i, k: (6, 16 * i + k, 0)
+    G = 4    # gated readiness
+    US = 32  # delays in microseconds
+    ONE, CHAIN, ALT = 8, 16, 24   # sharing of the Hedge value
     return [
         # seeded regression C12-2: the hedge delay elapses, the hedge's clone is not ready, the primary
         # succeeds meanwhile => Ok at the next poll (the hedge never gets ready / gets ready later)
@@ -308,6 +382,50 @@ def corpus():
         mk(4, 0, 1, [0], [C(0, 3, 0), P(), P()]),
         # lazy polling: timers elapse long before the polls
         mk(4, 0, 1, [10], [P(), A(35), P(), A(5), P(), A(10), P(), A(10), P()]),
+        # ---- a clone's poll_ready fails: the attempt fails without an inner call
+        # latency mode, no back-pressure: hedge 1's clone fails at launch, the primary fails later => all failed
+        # with ONE inner call; the primary's error is carried
+        mk(2, 0, 1, [10], [E(0, 1), P(), A(10), P(), P(), C(0, 0, 1), P()]),
+        # ... but not before the primary has failed, and a later success of the primary still wins
+        mk(2, 0, 1, [10], [E(0, 1), P(), A(10), P(), A(5), P(), C(0, 0, 0), P()]),
+        # back-pressure: the waiting hedge's clone fails while it waits; hedge 2 then makes inner call 1
+        mk(3, G + 0, 1, [10], [P(), A(10), P(), E(0, 1), P(), A(10), R(0, 2), P(), C(0, 1, 1), C(0, 0, 1), P()]),
+        # parallel mode: every hedge clone fails, the primary fails last / the primary succeeds
+        mk(3, 1, 1, [], [E(0, 1), E(0, 2), P(), P(), C(0, 0, 1), P()]),
+        mk(3, 1, 1, [], [E(0, 1), E(0, 2), P(), P(), C(0, 0, 0), P()]),
+        # parallel + gated: fails while waiting, after Ready (no effect: the call was made), dropped call
+        mk(3, G + 1, 1, [], [P(), R(0, 1), E(0, 1), E(0, 2), P(), C(0, 1, 1), C(0, 0, 1), P()]),
+        mk(2, G + 0, 1, [10], [P(), A(10), P(), D(), E(0, 1), C(0, 0, 0)]),
+        # readiness failure wakes the call future; errors counted towards max in latency mode
+        mk(3, 2, 1, [0, 5], [E(0, 1), P(), C(0, 0, 1), P(), A(5), P(), C(0, 1, 1), P()]),
+        # ---- sub-millisecond and fractional delays (microsecond unit): 900 us behaves as 1 ms, 1500 us as 2 ms
+        mk(2, US + 0, 1, [900], [P(), P(), A(1), P(), C(0, 1, 0), P()]),
+        mk(3, US + 2, 1, [1500, 2500], [P(), A(1), P(), A(1), P(), A(2), P(), A(1), P(), C(0, 2, 0), P()]),
+        mk(3, US + 0, 1, [1], [P(), A(1), P(), A(1), P(), C(0, 0, 1), C(0, 1, 1), C(0, 2, 1), P()]),
+        mk(3, US + 2, 1, [1000, 1001], [P(), A(1), P(), A(1), P(), A(1), P()]),
+        # ---- Duration::MAX ("never hedge"): the primary alone decides / only the hedges before it exist
+        mk(2, 0, 1, [DMAX], [P(), A(100000), P(), C(0, 0, 0), P()]),
+        mk(2, 0, 1, [DMAX], [P(), A(50), C(0, 0, 1), P(), A(100000), P()]),
+        mk(3, 2, 1, [5, DMAX], [P(), A(5), P(), A(100000), P(), C(0, 1, 0), P()]),
+        mk(3, 2, 1, [DMAX, 0], [P(), A(1000), P(), C(0, 0, 0), P()]),
+        mk(2, US + 0, 1, [DMAX], [P(), A(1000), P(), C(0, 0, 0), P()]),
+        # ---- long delays that do elapse
+        mk(2, 0, 1, [60000], [P(), A(59999), P(), A(1), P(), C(0, 1, 0), P()]),
+        mk(3, 2, 1, [100000, 30000], [P(), A(100000), P(), A(29999), P(), A(1), P(), C(0, 2, 1), C(0, 1, 1), C(0, 0, 1), P()]),
+        # ---- several calls through ONE Hedge value / a chain of clones / alternating: each has its own attempts
+        mk(2, ONE + 0, 3, [10], [P(0), C(0, 0, 1), A(10), P(0), C(0, 1, 1), P(0), P(1), C(1, 0, 1), P(1), A(10), P(1), C(1, 1, 0), P(1),
+                                 P(2), A(10), P(2), C(2, 1, 1), C(2, 0, 1), P(2)]),
+        mk(2, CHAIN + 0, 3, [10], [P(0), P(1), C(0, 0, 1), C(1, 0, 1), A(10), P(0), P(1), C(0, 1, 1), P(0), P(2), C(1, 1, 0), P(1),
+                                   A(10), P(2), C(2, 1, 1), C(2, 0, 1), P(2)]),
+        mk(3, ALT + 1, 4, [], [P(0), P(1), P(2), P(3), C(0, 0, 1), C(0, 1, 1), C(0, 2, 1), P(0), C(1, 2, 0), P(1), C(2, 0, 1), P(2), C(3, 1, 1), P(3)]),
+        mk(2, ONE + G + 0, 2, [5], [P(0), A(5), P(0), P(1), A(5), P(1), R(1, 1), R(0, 1), C(0, 1, 0), C(1, 1, 1), C(1, 0, 1), P(0), P(1)]),
+        # ---- the inner service panics synchronously inside call(): like a panicking inner future
+        mk(2, 0, 1, [10], [(7, 0, 0), P(), A(10), P(), C(0, 1, 0), P()]),
+        mk(3, 1, 1, [], [(7, 1, 0), P(), (7, 0, 0), C(0, 2, 1), P()]),
+        mk(2, 1, 1, [], [(7, 0, 0), (7, 1, 0), P(), P()]),
+        # ---- max_hedged_attempts = 16, parallel: all fail / the last one succeeds
+        mk(16, 1, 1, [], [P()] + [C(0, k, 1) for k in range(16)] + [P()]),
+        mk(16, 1, 1, [], [P()] + [C(0, k, 1) for k in range(15)] + [P(), C(0, 15, 0), P()]),
     ]
 
 
@@ -315,25 +433,51 @@ TIMES_NEAR = (-1, 0, 1)
 
 
 def timeline_script(rng, ncalls=1):
-    mx = rng.choice([1, 2, 2, 3, 3, 4, 5])
+    mx = rng.choice([1, 2, 2, 3, 3, 4, 5, 5, 7, 16])
     kind = rng.random()
-    if kind < 0.45:
+    unit = 0
+    if kind < 0.38:
         mode, ds = 0, [rng.choice([1, 2, 5, 10, 10, 20])]
-    elif kind < 0.55:
+    elif kind < 0.48:
         mode, ds = rng.choice([(0, [0]), (1, []), (1, [7])])
+    elif kind < 0.58:
+        # microsecond unit: sub-millisecond, fractional, exact
+        unit = 32
+        if rng.random() < 0.5:
+            mode, ds = 0, [rng.choice([1, 500, 900, 999, 1000, 1001, 1500, 2500, 4999])]
+        else:
+            mode, ds = 2, [rng.choice([0, 1, 900, 1000, 1001, 1500, 2000, 3300]) for _ in range(rng.randint(1, mx))]
+    elif kind < 0.64:
+        # Duration::MAX somewhere, or a long delay
+        if rng.random() < 0.5:
+            mode, ds = 0, [rng.choice([DMAX, DMAX, 30000, 100000])]
+        else:
+            mode = 2
+            ds = [rng.choice([0, 3, 10, DMAX, 30000]) for _ in range(rng.randint(1, mx))]
     else:
         mode = 2
         ds = [rng.choice([0, 0, 1, 3, 5, 10, 20]) for _ in range(rng.randint(0, mx))]
+    mode += unit
     ideal = [0]
     for k in range(1, mx):
-        ideal.append(ideal[-1] + delay_of(mode, ds, k))
+        d = delay_of(mode, ds, k)
+        ideal.append(ideal[-1] + (d if d < INF else 40))     # a hedge that is never due: still look around a plausible instant
     horizon = ideal[-1] + 25
     is_g = rng.random() < 0.45
     if is_g:
         mode += 4
+    if ncalls > 1 or rng.random() < 0.1:
+        mode += 8 * rng.choice([0, 1, 1, 2, 3])
     todo = []   # (time, order, event)
     for i in range(ncalls):
-        off = 0 if i == 0 else rng.choice([0, 0, 3, ideal[-1]])
+        off = 0 if i == 0 else rng.choice([0, 0, 3, min(ideal[-1], 200)])
+        # clones whose poll_ready fails (with or without back-pressure)
+        if rng.random() < 0.3 and mx >= 2:
+            for k in range(1, mx):
+                if rng.random() < (0.5 if mx <= 5 else 0.2):
+                    x = rng.random()
+                    tm = 0 if x < 0.5 else ideal[k] if x < 0.7 else ideal[k] + rng.choice([1, 2, 5, 8])
+                    todo.append((max(0, tm + off), rng.random(), (6, 16 * i + k, 0)))
         if is_g:
             # the seeded-regression shape: primary succeeds after the first hedge delay while hedge 1 is unready
             shape = rng.random() < 0.3 and mx >= 2
@@ -363,7 +507,10 @@ def timeline_script(rng, ncalls=1):
             if rng.random() < 0.15:
                 tm = 0      # completed before it even starts: fails / succeeds at once
             b = rng.choice([0, 1, 1, 1, 1, 2]) if rng.random() < 0.7 else rng.choice([0, 1])
-            todo.append((tm, rng.random(), (4, 16 * i + k, b)))
+            if b == 2 and rng.random() < 0.5:
+                todo.append((tm, rng.random(), (7, 16 * i + k, 0)))    # panic inside inner.call() if not made yet
+            else:
+                todo.append((tm, rng.random(), (4, 16 * i + k, b)))
         if rng.random() < 0.12:
             todo.append((rng.randint(0, horizon), rng.random(), (2, i, 0)))
     todo.sort()
@@ -381,17 +528,18 @@ def timeline_script(rng, ncalls=1):
     marks = sorted(set([x for x in ideal] + [tm for (tm, _, _) in todo] + [horizon]))
     ti = 0
     for mark in marks:
-        if mark > t:
+        while mark > t:
+            step = min(mark - t, 100000)
             if style == "prompt":
-                evs.append((3, mark - t, 0))
+                evs.append((3, step, 0))
             else:
                 # split the advance at a random point so that polls happen strictly between marks, too
-                cut = rng.randint(0, mark - t)
-                if 0 < cut < mark - t:
-                    evs.append((3, cut, 0)); polls(); evs.append((3, mark - t - cut, 0))
+                cut = rng.randint(0, step)
+                if 0 < cut < step:
+                    evs.append((3, cut, 0)); polls(); evs.append((3, step - cut, 0))
                 else:
-                    evs.append((3, mark - t, 0))
-            t = mark
+                    evs.append((3, step, 0))
+            t += step
             polls()
         while ti < len(todo) and todo[ti][0] <= t:
             evs.append(todo[ti][2]); ti += 1
@@ -403,16 +551,21 @@ def timeline_script(rng, ncalls=1):
 
 def random_script(rng, maxlen=30):
     mx = rng.choice([1, 2, 2, 3, 3, 4])
-    mode, ds = rng.choice([(0, [3]), (0, [5]), (0, [0]), (1, []), (2, [0, 4]), (2, [2, 0, 3]), (2, [0, 0, 5]), (2, [])])
-    ncalls = rng.choice([1, 1, 2, 2, 3])
+    mode, ds = rng.choice([(0, [3]), (0, [5]), (0, [0]), (1, []), (2, [0, 4]), (2, [2, 0, 3]), (2, [0, 0, 5]), (2, []),
+                           (32, [1500]), (34, [900, 0, 2001]), (0, [DMAX]), (2, [2, DMAX])])
+    ncalls = rng.choice([1, 1, 2, 2, 3, 4])
     is_g = rng.random() < 0.5
     if is_g:
         mode += 4
+    mode += 8 * rng.choice([0, 0, 1, 2, 3])
+    p_err = rng.choice([0, 0, 0.08, 0.15])
     evs = []
     for _ in range(rng.randint(3, maxlen)):
         x = rng.random()
         i = rng.randrange(ncalls)
-        if is_g and rng.random() < 0.15:
+        if rng.random() < p_err:
+            evs.append((6, 16 * i + rng.randrange(1, mx + 1), 0))
+        elif is_g and rng.random() < 0.15:
             evs.append((5, 16 * i + rng.randrange(1, mx + 1), 0))
         elif x < 0.45:
             evs.append((1, i, 0))
@@ -420,20 +573,26 @@ def random_script(rng, maxlen=30):
             evs.append((2, i, 0))
         elif x < 0.72:
             evs.append((3, rng.choice([1, 1, 2, 3, 4, 5, 5, 8]), 0))
-        else:
+        elif x < 0.97:
             evs.append((4, 16 * i + rng.randrange(mx + 1), rng.choice([0, 1, 1, 1, 2])))
+        else:
+            evs.append((7, 16 * i + rng.randrange(mx + 1), 0))
     return mk(mx, mode, ncalls, ds, evs)
 
 
-def exhaustive(depth, mx, mode, ds, ncalls=1):
+def exhaustive(depth, mx, mode, ds, ncalls=1, rerr=False):
     alpha = [(1, 0, 0), (3, 1, 0), (3, 2, 0)]
     for k in range(mx):
         alpha += [(4, k, 0), (4, k, 1)]
     if ncalls > 1:
         alpha += [(1, 1, 0), (4, 16, 1), (4, 17, 0)]
     alpha += [(2, 0, 0), (4, 0, 2)]
+    if rerr:
+        alpha += [(7, 1, 0)]
     if gated(mode):
         alpha += [(5, k, 0) for k in range(1, mx)]
+    if rerr:
+        alpha += [(6, k, 0) for k in range(1, mx)]
     for L in range(1, depth + 1):
         for evs in itertools.product(alpha, repeat=L):
             yield mk(mx, mode, ncalls, ds, evs)
@@ -442,23 +601,33 @@ def exhaustive(depth, mx, mode, ds, ncalls=1):
 def generate(rng, tier):
     out = []
     if tier == "quick":
-        out += [timeline_script(rng) for _ in range(1200)]
-        out += [timeline_script(rng, 2) for _ in range(200)]
-        out += [random_script(rng) for _ in range(600)]
+        out += [timeline_script(rng) for _ in range(1500)]
+        out += [timeline_script(rng, 2) for _ in range(250)]
+        out += [timeline_script(rng, rng.choice([3, 4])) for _ in range(80)]
+        out += [random_script(rng) for _ in range(700)]
         out += list(exhaustive(3, 2, 0, [2]))
-        out += list(exhaustive(3, 2, 4, [1]))
+        out += list(exhaustive(3, 2, 4, [1], rerr=True))
+        out += list(exhaustive(3, 2, 1, [], rerr=True))
     else:
-        out += [timeline_script(rng) for _ in range(30000)]
+        out += [timeline_script(rng) for _ in range(34000)]
         out += [timeline_script(rng, 2) for _ in range(6000)]
-        out += [random_script(rng, 50) for _ in range(15000)]
+        out += [timeline_script(rng, rng.choice([3, 4])) for _ in range(2000)]
+        out += [random_script(rng, 50) for _ in range(16000)]
         out += list(exhaustive(5, 2, 0, [2]))
         out += list(exhaustive(4, 3, 2, [0, 2]))
         out += list(exhaustive(4, 2, 1, []))
         out += list(exhaustive(4, 3, 0, [1]))
         out += list(exhaustive(3, 2, 0, [1], 2))
+        out += list(exhaustive(3, 2, 8 + 0, [1], 2))
+        out += list(exhaustive(3, 2, 16 + 1, [], 2))
         out += list(exhaustive(5, 2, 4, [1]))
         out += list(exhaustive(4, 3, 4 + 2, [0, 1]))
         out += list(exhaustive(4, 3, 4 + 1, []))
+        out += list(exhaustive(4, 2, 0, [1], rerr=True))
+        out += list(exhaustive(4, 2, 4, [1], rerr=True))
+        out += list(exhaustive(4, 3, 1, [], rerr=True))
+        out += list(exhaustive(3, 3, 4 + 2, [0, 1], rerr=True))
+        out += list(exhaustive(4, 2, 32 + 0, [1500]))
     return out
 
 
@@ -478,13 +647,29 @@ def nontrivial(s, t):
 def classify(s, t):
     d = decode(s, t)
     mx, mode, ncalls, ds, evs = header(s)
-    out = ["max%d" % mx, "calls%d" % ncalls, "gated" if gated(mode) else "always_ready"]
+    out = ["max%s" % (mx if mx <= 5 else "6to16"), "calls%d" % ncalls, "gated" if gated(mode) else "always_ready",
+           "share%d" % ((mode // 8) % 4)]
     if mode % 4 == 1:
         out.append("delay_immediate")
     elif mode % 4 == 2:
         out.append("delay_dynamic" + ("_zero_first" if (not ds or ds[0] == 0) else ""))
     else:
         out.append("delay_fixed" + ("_zero" if not latency_mode(mode, ds) else ""))
+    used = [raw_delay(mode, ds, k) for k in range(1, mx)]
+    if any(x >= DMAX for x in used):
+        out.append("delay_has_duration_max")
+    if any(20000 <= x < DMAX for x in used) and not micros(mode):
+        out.append("delay_has_30s_or_more")
+    if micros(mode) and mode % 4 != 1:
+        out.append("delay_microseconds")
+        if any(0 < x < 1000 for x in used):
+            out.append("delay_sub_millisecond")
+        if any(x % 1000 for x in used if x < DMAX):
+            out.append("delay_fractional_ms")
+    if any(e[0] == 6 for e in evs):
+        out.append("has_ready_err")
+    if any(e[0] == 7 for e in evs):
+        out.append("has_sync_panic_in_call")
     if d:
         evt = d[4]
         rs = set(o[0] for (_, o) in evt)
@@ -502,14 +687,16 @@ def classify(s, t):
         out.append("starts_%s" % ("le_calls" if tot <= ncalls else "hedged"))
         nlaunch = sum(sum((o[3] >> (5 * i)) & 31 for i in range(ncalls)) for (_, o) in evt)
         if nlaunch + ncalls > tot and nlaunch:
-            out.append("hedge_waited_for_readiness")
-        # Ok returned while some launched hedge had not made its inner call yet
+            out.append("hedge_launched_without_inner_call")
+        # per call: launched hedges, inner calls; Ok / AllAttemptsFailed seen while fewer inner calls than launched attempts
         ls = [0] * ncalls; cs = [0] * ncalls
         for (e, o) in evt:
             for i in range(ncalls):
                 ls[i] += (o[3] >> (5 * i)) & 31; cs[i] += (o[2] >> (5 * i)) & 31
             if o[0] == 1 and e[0] == 1 and ls[e[1]] + 1 > cs[e[1]]:
-                out.append("ok_while_hedge_waiting")
+                out.append("ok_while_hedge_without_inner_call")
+            if o[0] == 3 and e[0] == 1 and cs[e[1]] < mx:
+                out.append("all_failed_with_readiness_failure")
     return out
 
 
